@@ -15,6 +15,10 @@ THEOREMS = [
     'Pfst.C13.frame', 'Pfst.C13.fallback_overrides', 'Pfst.C13.foreign_ok_correct', 'Pfst.C13.fields_scalar_correct',
     'Pfst.C13.trace_correct_partial', 'Pfst.C13.trace_correct_false', 'Pfst.C13.untouched_silent',
     'Pfst.C13.no_change_false', 'Pfst.C13.rounds',
+    # full statements (mutual structural induction, Pfst/ReconcileCorrect.lean, ReconcileQuiet.lean, ReconcileKept.lean)
+    'Pfst.C13.node_correct', 'Pfst.C13.intree_never_fails', 'Pfst.C13.children_correct', 'Pfst.C13.slice_correct',
+    'Pfst.C13.slice_correct_ast', 'Pfst.C13.dict_correct', 'Pfst.C13.trace_correct', 'Pfst.C13.rounds_correct', 'Pfst.C13.untouched_silent_full',
+    'Pfst.C13.no_change', 'Pfst.C13.no_change_ops', 'Pfst.C13.untouched_kept',
 ]
 RULE = ('corpus programs (snippets covering every node type, generated programs, layout / comment / parenthesis variants, '
         'stdlib chunks) are parsed to an FST, marked, and edited by 1-3 pure-AST mutations per round for 1-3 mark/reconcile '
@@ -40,7 +44,8 @@ TRUSTED = [
     'the serialiser (harness/c13_lib.py Ser): origin tags from node.f / f.root / f.parent / f.pfield, Dict as a list of '
     '(key, value) pairs, ctx and str fields dropped, primitive values as (Python == class, exact type+repr)',
     'excluded inputs: programs with a keyword-only lambda parameter inside an f-string (C13-F8); list edits of unparenthesised '
-    'tuples written with backslash continuations (C13-F7); in-tree nodes moved under nodes of other trees (C13-F5); primitive / '
+    'tuples written with backslash continuations (C13-F7); deletions in Global / Nonlocal names lists written with a backslash '
+    'continuation (C13-F10); in-tree nodes moved under nodes of other trees (C13-F5); primitive / '
     'optional-field / list edits inside nodes of other trees (C13-F2); mutation targets inside f-strings, patterns, subscript slices, decorators, Store/Del targets; Starred and '
     'Slice elements; Try orelse/finalbody emptiness; cyclic edits; nodes whose .f was copied by copy.copy',
     'docstring-position multi-line strings are compared after inspect.cleandoc (reconcile runs with docstr=True; docstring '
@@ -51,18 +56,30 @@ TRUSTED = [
     'that is the first statement of an If.orelse (elif spelling and its indentation) are not compared',
 ]
 ASSUMPTIONS = [
-    'WF (hypothesis of trace_correct): every in-tree origin names an existing path of the marked tree whose node has the same '
-    'kind and field shapes (AST classes have fixed _fields); evaluated by the driver per case (res_ok)',
-    'PrimExact (hypothesis of trace_correct): Python == on the primitives involved coincides with identity of type and value; '
+    'wfN (hypothesis of trace_correct / untouched_kept, decidable, Pfst/Reconcile.lean): every in-tree origin names an existing '
+    'path of the marked tree whose node has the same kind and field shapes (AST classes have fixed _fields), tree ids of other '
+    'trees are != 0, list elements are not lists, the (key, value) pairs of a Dict have a key that is a node or None and a pair '
+    'origin consistent with what recurse_slice_dict reads off values[i].f / keys[i].f (the serialiser computes it that way); '
+    'evaluated by the driver per case (`wf`, tallied as theorem_hypothesis)',
+    'primOK (part of wfN): Python == on the primitives compared by recurse_children coincides with identity of type and value; '
     'false in general (trace_correct_false, finding C13-F1)',
+    'stillN (hypothesis of no_change / untouched_silent_full): all nodes in place, scalars == the marked ones, list fields of the '
+    'marked length holding nodes only (None / str list elements are re-put on every reconcile: no_change_false, C13-F8); Dict '
+    'pairs in place with key and value in place (None key over None key)',
+    'keptN (hypothesis of untouched_kept): the ancestors of the untouched subtree are in place and recurse_children of none of '
+    'them raises (otherwise the documented retry puts the ancestor as a pure AST and the formatting below it is lost); no Dict '
+    'list on the path itself (statements are never inside a Dict)',
     'a copy of a verified node of another tree has the structure of that node (false when only primitives were changed there: '
     'finding C13-F2)',
 ]
-LEVEL_TEXT = ('Lean 4 theorems about an executable model of the reconcile diff: for every marked/edited pair (any size, any mix '
-              'of in-place, moved, duplicated, foreign and new nodes) replaying the emitted operation trace on the structure of '
-              'the marked copy yields the structure of the edited tree; unchanged tree => empty trace; an in-place unchanged '
-              'subtree emits no operation; repeated rounds by induction. The trace is compared with the real operations of '
-              'reconcile() on every run.')
+LEVEL_TEXT = ('Lean 4 theorems about an executable model of the reconcile diff, proved by mutual structural induction over the '
+              'nested tree type: for EVERY marked/edited pair meeting the decidable side condition wfN (any size, any '
+              'mix of in-place, moved, duplicated, foreign and new nodes; slices and Dicts of any length with runs, insertions past '
+              'the end and tail deletions; the except -> put_node fallback) replaying the emitted operation trace on the structure of the '
+              'marked copy yields the structure of the edited tree (trace_correct); unchanged tree => empty trace (no_change); an '
+              'unchanged subtree under in-place ancestors is disjoint from the region of every operation (untouched_kept); '
+              'repeated rounds by induction. Outside wfN (finding F1 inputs) the conclusion is evaluated per case. The trace is compared '
+              'with the real operations of reconcile() on every run.')
 LEVEL_NOTE = ('The theorems are about the model and the container laws of applyOps; the tie to /repo is differential (op traces '
               'of thousands of mutation scripts per run) plus the oracle on the real result. Text-level claims (validity, '
               'comments kept) rest on the oracle sweep and on C01/C03/C07, not on a proof.')
@@ -125,6 +142,10 @@ def _w_nothing(a, FST):
     pass
 
 
+def _w_global_backslash_del(a, FST):
+    del a.body[0].names[-1]                                      # last name after a backslash continuation deleted
+
+
 def _fstring_kwonly(tree):
     """a lambda with a keyword-only parameter without default inside an f-string (see C13-F8)"""
     for n in ast.walk(tree):
@@ -141,6 +162,7 @@ WITNESS = {
     'swap_backslash_tuple': ('x = a \\\n   , b', _w_swap_backslash, 'Tuple.elts'),
     'nochange_fstring_kwonly': ("f'{ {1: lambda *, y: 1} }'", _w_nothing, '-'),
     'move_multiline_op': ('x = a < b\ny = (a not\n  in b)', _w_move_multiline_op, 'Compare.ops'),
+    'global_backslash_del': ('global g1,  \\\n  g2', _w_global_backslash_del, 'Global.names'),
 }
 
 
@@ -229,6 +251,7 @@ def _run_case(arg):
             if n2 is s['node'] and chain2 == s['chain'] and [id(x) for x in ast.walk(n2)] == s['ids'] \
                     and ast.dump(n2) == s['dump']:
                 untouched.append((s['path'], _mpath(f.a, s['path']), s['text']))
+        R['case']['paths'] = [list(mp) for _, mp, _ in untouched][:40]
         L.RECORDER.begin()
         try:
             o = f.reconcile()
@@ -293,6 +316,19 @@ def _run_case(arg):
 def _programs(ctx, n, stdlib):
     rng = random.Random(ctx.rng.random())
     return corpus.programs(rng, n, stdlib=stdlib)
+
+
+def _has_dict(t):
+    """a mode-2 list (Dict pairs) somewhere in a serialised tree"""
+    stack = [t]
+    while stack:
+        x = stack.pop()
+        if isinstance(x, list) and x:
+            if x[0] == 'm' and len(x) == 4 and x[2] == 2:
+                return True
+            if x[0] in ('n', 'm'):
+                stack.extend(x[3])
+    return False
 
 
 def _sig(R, cls):
@@ -381,6 +417,19 @@ def _judge(ctx, results, name='reconcile trace vs Pfst.Reconcile.reconcile', sea
             for e in real:
                 if 'raised' in e:
                     ctx.tally('real_op_raised', e['raised'].split(':')[0])
+        # ---- hypotheses of the full theorems, evaluated on the real case (how much of the run the theorems cover) ----
+        wf = m.get('wf')
+        ctx.tally('theorem_hypothesis', 'trace_correct: wfN ' + ('holds' if wf else 'fails (mode ' + res['mode'] + (', Dict present' if _has_dict(c['edited']) else '') + ')'))
+        if wf and not m.get('fail') and not m.get('res_ok', True):
+            ctx.brk('proof', 'Pfst.C13.trace_correct', f'driver: wfN holds, no failure, but applyOps trace != erase edited on {key}')
+        if not muts:
+            ctx.tally('theorem_hypothesis', 'no_change: stillN ' + ('holds' if m.get('still') else 'fails'))
+        if m.get('still') and m['ops']:
+            ctx.brk('proof', 'Pfst.C13.no_change', f'driver: stillN holds but the trace is not empty on {key}')
+        for kp, tc in zip(m.get('kept', []), m.get('touched', [])):
+            ctx.tally('theorem_hypothesis', 'untouched_kept: keptN ' + ('holds' if kp else 'fails') + ' on an untouched statement')
+            if kp and wf and tc:
+                ctx.brk('proof', 'Pfst.C13.untouched_kept', f'driver: keptN and wfN hold but an operation touches the path on {key}')
         if not m.get('res_ok', True) and not m.get('fail'):
             ctx.tally('model_result_ne_edited', res['mode'])
             if res['mode'] != 'prim_conflate':
